@@ -219,9 +219,10 @@ Proof.
   intros Ho. unfold or_ok in Ho.
   set (q := fun e : list Z * nat => negb (match fst e with [] => is_kind toks (snd e) KFalse | _ => false end)) in *.
   set (ne := fun e : list Z * nat => match fst e with [] => false | _ => true end) in *.
-  assert (Hgen : forallb ne (filter q (edges toks i)) && pairwiseb (fun a b => conflict (fst a) (fst b)) (filter q (edges toks i)) = true ->
+  assert (Hgen : forallb ne (filter q (edges toks i)) && pairwiseb (fun a b => conflict (fst a) (fst b)) (filter q (edges toks i))
+                 && nodupn (map snd (filter (fun e => match fst e with [] => true | _ => false end) (edges toks i))) = true ->
                  PW Redge (edges toks i)).
-  { intros Hb. apply andb_true_iff in Hb. destruct Hb as [H1 H2].
+  { intros Hb. apply andb_true_iff in Hb. destruct Hb as [Hb _]. apply andb_true_iff in Hb. destruct Hb as [H1 H2].
     pose proof (filter_PW q ne _ _ H1 H2) as HP. clear -HP.
     assert (Hconv : forall a b, (q a = false \/ q b = false \/ (ne a = true /\ ne b = true /\ conflict (fst a) (fst b) = true)) -> Redge a b).
     { intros a b [Hx|[Hx|[Ha [Hb Hc]]]].
